@@ -192,6 +192,8 @@ def run(run: common.Run):
         except BlockSizeError:
             continue
         bvals = base.corr.astype('float32')
+        # bands whose invalid pixels differ: a per-dataset mask (nodata=None) cannot express them (finding D48)
+        band_masks_differ = nb > 1 and any(not np.array_equal(np.isnan(bvals[0]), np.isnan(bvals[k_])) for k_ in range(1, nb))
         combos = [(dt, nd, pi) for dt in DTYPES for nd in nodatas_for(dt) for pi in range(len(PROFILES))]
         rng.shuffle(combos)
         lines, impls, cases = [], [], []
@@ -246,7 +248,10 @@ def run(run: common.Run):
             run.lines_compared += 1
             bad = None if (case.get('_png_dropped_nodata') and im == 'err') else compare_file(case, m, im)
             if bad:
-                run.fail(case, bad, signature=dict(kind='file-encoding', dtype=case['dtype']))
+                sig = dict(kind='file-encoding', dtype=case['dtype'])
+                if band_masks_differ and (case['nodata'] == 'null' or case.get('_png_dropped_nodata')) and 'reader sees valid=' in bad:
+                    sig.update(per_dataset_mask=True, band_masks_differ=True)
+                run.fail(case, bad, signature=sig)
         run.sample(dict(fusion=f, model=model, shape=list(bvals.shape), n_profiles=len(cases),
                         float32_range=[float(np.nanmin(bvals[np.isfinite(bvals)])) if np.isfinite(bvals).any() else None,
                                        float(np.nanmax(bvals[np.isfinite(bvals)])) if np.isfinite(bvals).any() else None]), 3)
